@@ -147,22 +147,34 @@ def explore(ctx, thorough):
         init = fn.cls.find_method("__init__")
         bad = {"cues": [], "times": [], "text": []}
         n = 0
-        for doc, want in docs:
+        # WebVTT reader options (strict timing, a time shift, both): a well-formed document reads the same, shifted
+        option_sets = [({}, 0)]
+        if name == "WebVTT":
+            option_sets += [({"ignore_timing_errors": False}, 0), ({"time_shift_milliseconds": 5000}, 5000000),
+                            ({"ignore_timing_errors": False, "time_shift_milliseconds": 5000}, 5000000),
+                            ({"ignore_timing_errors": False, "time_shift_milliseconds": 400}, 400000)]
+        jobs = []
+        for i_, (doc, want) in enumerate(docs):
+            jobs.append((doc, want, {}))
+            if len(option_sets) > 1 and i_ % 6 == 0:
+                for opts, shift in option_sets[1:]:
+                    jobs.append((doc, [(s_ + shift, e_ + shift, t_) for s_, e_, t_ in want], opts))
+        for doc, want, opts in jobs:
             n += 1
             me = Stub("reader", {}, cls=fn.cls)
             try:
                 if init is not None:
-                    F.call_function(init, [], {}, self_value=me)
+                    F.call_function(init, [], dict(opts), self_value=me)
                 for k_, v_ in attrs.items():
                     me.attrs.setdefault(k_, v_)
                 r = F.call_function(fn, [doc], {}, self_value=me)
             except FoldRaise as e:
-                bad["cues"].append({"document": doc[:200], "raises": e.exc_name or str(e), "required_cues": len(want)})
+                bad["cues"].append({"document": doc[:200], "options": opts, "raises": f"{e.exc_name}: {e}"[:160], "required_cues": len(want)})
                 continue
             except AnalysisError as e:
                 raise AnalysisError(f"{q} cannot be folded on {doc[:40]!r}: {e}")
             got = _read_back(r, q)
-            case = {"document": doc[:240]}
+            case = {"document": doc[:240], **({"options": opts} if opts else {})}
             if len(got) != len(want):
                 bad["cues"].append(dict(case, captions=len(got), required=len(want), read=[g[2] for g in got][:4]))
             elif [(a, b) for a, b, _ in got] != [(a, b) for a, b, _ in want]:
